@@ -3552,8 +3552,10 @@ class Parser:
             self._prev.text.upper() if self._match_texts(self.DESCRIBE_STYLES) else None
         )
         if self._match(TokenType.DOT):
+            # `DESCRIBE <style|kind>.x`: that word was the first part of a dotted name. Without such a word only the
+            # dot is given back: going back two tokens would land on DESCRIBE itself and parse it again, forever
+            self._retreat(self._index - (2 if style or kind else 1))
             style = None
-            self._retreat(self._index - 2)
 
         format = self._parse_property() if self._match(TokenType.FORMAT, advance=False) else None
 
